@@ -223,6 +223,8 @@ def run(ck):
     api = {f.path for f in P.fns.values() if f.crate == "zlib_rs" and f.j.get("vis") == "Public" and P.callers_of(f.path) & set(roots)}
     abort.check(ck, P, roots, "ABORT/c-api", abort_table.JUSTIFIED, api_fns=api, label="C API")
     validation(ck, P)
+    from .. import guards as _gct
+    _gct.c_truthiness(ck, P)
     from .. import taint as _t
     _t.api_int_arith(ck, P, roots)
     from .. import condparity
